@@ -295,6 +295,9 @@ def check_files(case):
         except LookupError as exc:
             raise Violation('instruction-file-does-not-fit-output',
                             str(exc)) from exc
+        except ValueError as exc:
+            raise Violation('instruction-file-not-understood',
+                            str(exc)) from exc
         simulated = [row[2] for row in rise_tab[1:]]
         sim_levels = [row[0] for row in rise_tab[1:]]
         obs_levels = [z for z, _ in rise_view]
@@ -438,7 +441,11 @@ def check_values(case):
         if float(line.split()[1]) != want:
             raise Violation('observation-not-identical-master-curve-value',
                             '{!r} vs {!r}'.format(line, want))
-    extracted = model_pest.read_instructions(ins.getvalue(), vec.getvalue())
+    try:
+        extracted = model_pest.read_instructions(ins.getvalue(),
+                                                 vec.getvalue())
+    except (LookupError, ValueError) as exc:
+        raise Violation('instruction-file-not-understood', str(exc)) from exc
     labels = set()
     for (name, field, value, line), want in zip(extracted, simulated):
         if len(line) - 2 > 20:
